@@ -407,7 +407,7 @@ class Formatter:
             lambda m: self._replace_tokens(m.group(0), loaded_locale), escaped_fmt
         )
 
-        if not re.search("^" + pattern + "$", time):
+        if not re.fullmatch(pattern, time):
             raise ValueError(f"String does not match format {fmt}")
 
         def _get_parsed_values(m: Match[str]) -> Any:
